@@ -136,7 +136,7 @@ func HarnessC16PageNumber() {
 	body := ""
 	for i := 1; i <= n; i++ {
 		label := string(rune('0' + i))
-		kind := vx.Choose("entry", 6)
+		kind := vx.Choose("entry", 8)
 		if i == cur {
 			kind = 0
 		}
@@ -154,6 +154,10 @@ func HarnessC16PageNumber() {
 			body += `<a href="#p` + label + `">` + label + `</a> `
 		case 5:
 			body += `<a href="http://x.t/a?page=` + label + `">` + label + `</a> `
+		case 6:
+			body += `<a href=" javascript:void(0)">` + label + `</a> `
+		case 7:
+			body += `<a href="JavaScript:;">` + label + `</a> `
 		}
 	}
 	doc := vx.ParseHTML(`<html><body><p>some words</p><div class="pager">` + body + `</div></body></html>`)
